@@ -222,6 +222,170 @@ fn check(x: &Exchange, rep: &mut Report) {
     }
 }
 
+
+/// A SESSION: several messages through ONE bus instance, with write faults somewhere along the way. Each message is
+/// judged on its own slice of the port's event log, so anything a message leaves behind for the next one (stale
+/// bytes, a half-consumed line) shows up on that next message.
+fn check_session(msgs: &[RefMsg], write_script: Vec<WriteAct>, write_default: WriteAct, rng: &mut Rng, rep: &mut Report) {
+    let mut tape = vec![];
+    for m in msgs {
+        if reply_due(m) {
+            let own = match m {
+                RefMsg::Hello(a) | RefMsg::Query(a) | RefMsg::Request(a, _) => *a,
+                _ => 3,
+            };
+            let r = match rng.below(4) {
+                0 => RefMsg::Ack(own, rng.usize(N_OPS)),
+                1 => RefMsg::Unknown { addr: own, ty: 0x42, data: rng.bytes_upto(4) },
+                _ => RefMsg::Report(own, rng.usize(N_STATES)),
+            };
+            tape.extend(refs::wire(&r));
+        }
+    }
+    tape.extend_from_slice(SENTINEL);
+    let sig = format!("session|{}|w{:?}/{:?}|{}", msgs.iter().map(|m| m.show()).collect::<Vec<_>>().join(";"), write_script, write_default, hex(&tape));
+    rep.case(Some(fnv(sig.as_bytes())));
+    rep.count("sessions");
+    let st = doubles::shared(doubles::WEIRD_SETTINGS);
+    let port = InstrPort::scripted(st.clone(), FragReader::plain(tape.clone()), FragWriter::new(write_script.clone(), write_default));
+    let mut bus = SerialSignBus::try_new(port).expect("port setup");
+    let mut transcript: Vec<String> = vec![];
+    for (k, m) in msgs.iter().enumerate() {
+        let (ev0, w0) = {
+            let s = st.borrow();
+            (s.log.len(), s.written.len())
+        };
+        let pos0 = match &bus.port().wiring {
+            Wiring::Scripted { reader, .. } => reader.pos,
+            _ => 0,
+        };
+        let lib = refs::from_ref(m);
+        let r = catch(|| bus.process_message(lib).map(|r| r.map(|x| refs::to_ref(&x))).map_err(|e| e.to_string()));
+        let pos1 = match &bus.port().wiring {
+            Wiring::Scripted { reader, .. } => reader.pos,
+            _ => 0,
+        };
+        let s = st.borrow();
+        let written = s.written[w0..].to_vec();
+        let events = &s.log[ev0..];
+        let want = refs::wire(m);
+        let write_failed = events.iter().any(|e| matches!(&e.ev, PortEv::Write { bytes, returned } if matches!(returned, Err(k) if *k != io::ErrorKind::Interrupted) || (matches!(returned, Ok(0)) && !bytes.is_empty())));
+        let reads = events.iter().filter(|e| matches!(e.ev, PortEv::Read { .. })).count();
+        transcript.push(format!("#{} {} wrote [{}] -> {:?}", k, m.show(), show_bytes(&written), r.as_ref().map_err(|p| p.msg.clone())));
+        let mut bad: Vec<(&'static str, String)> = vec![];
+        match &r {
+            Err(p) => bad.push(("panic", format!("panic {} at {}", p.msg, short_loc(&p.loc)))),
+            Ok(result) => {
+                if write_failed {
+                    rep.count("session_write_failures_hit");
+                    if result.is_ok() {
+                        bad.push(("write_failure_not_an_error", format!("message #{}: the write failed but the result is {:?}", k, result)));
+                    }
+                    if !want.starts_with(&written) {
+                        bad.push(("wrong_bytes_written", format!("message #{} wrote [{}], not a prefix of [{}]", k, show_bytes(&written), show_bytes(&want))));
+                    }
+                    if reads > 0 {
+                        bad.push(("read_after_failed_write", format!("message #{}: {} read call(s) after the failed write", k, reads)));
+                    }
+                } else {
+                    if written != want {
+                        bad.push(("wrong_bytes_written", format!("message #{} ({}) wrote [{}] expected [{}]", k, m.show(), show_bytes(&written), show_bytes(&want))));
+                    }
+                    if reply_due(m) {
+                        let line_end = tape[pos0..].iter().position(|b| *b == b'\n').map(|i| pos0 + i + 1).unwrap_or(tape.len());
+                        if pos1 != line_end {
+                            bad.push(("not_exactly_one_line_consumed", format!("message #{} consumed {} bytes, the next reply line has {}", k, pos1 - pos0, line_end - pos0)));
+                        } else {
+                            match refs::dec(&tape[pos0..line_end]) {
+                                Dec::Ok { addr, ty, data } => {
+                                    let wantr = refs::classify(addr, ty, &data);
+                                    if *result != Ok(Some(wantr.clone())) {
+                                        bad.push(("wrong_reply", format!("message #{}: result {:?}, the line decodes to {}", k, result, wantr.show())));
+                                    }
+                                }
+                                _ => {
+                                    if result.is_ok() {
+                                        bad.push(("undecodable_reply_not_an_error", format!("message #{}: result {:?}", k, result)));
+                                    }
+                                }
+                            }
+                        }
+                    } else {
+                        if reads > 0 || pos1 != pos0 {
+                            bad.push(("read_when_no_reply_due", format!("message #{} ({}) read from the port", k, m.show())));
+                        }
+                        if *result != Ok(None) {
+                            bad.push(("wrong_result_no_reply_due", format!("message #{}: result {:?}", k, result)));
+                        }
+                    }
+                }
+            }
+        }
+        drop(s);
+        if !bad.is_empty() {
+            for (class, what) in bad {
+                rep.violation(
+                    MON,
+                    class,
+                    &sig,
+                    format!("session [{}]: {}", transcript.join(" | "), what),
+                    J::obj(vec![("workload", J::s("session")), ("transcript", J::Arr(transcript.iter().map(|t| J::s(t.clone())).collect())), ("write_script", J::s(format!("{:?} then {:?}", write_script, write_default))), ("reply_tape", J::s(show_bytes(&tape))), ("observed", J::s(what.clone()))]),
+                );
+            }
+            return;
+        }
+        rep.count("session_messages_checked");
+    }
+}
+
+fn sessions(ctx: &Ctx, shard: usize, n: u64, rep: &mut Report) {
+    let mut rng = ctx.rng("sessions", shard as u64);
+    // unpaced kinds only (sessions are about history, not pacing): keeps them fast
+    let pool = |rng: &mut Rng| -> RefMsg {
+        let a = *rng.pick(&[3u16, 0xFF, 0x100, 0xFFFF]);
+        match rng.below(8) {
+            0 => RefMsg::Hello(a),
+            1 | 2 => RefMsg::Query(a),
+            3 => RefMsg::Request(a, rng.usize(N_OPS)),
+            4 => RefMsg::Goodbye(a),
+            5 => RefMsg::Complete(a),
+            6 => RefMsg::Count(rng.u16()),
+            _ => RefMsg::Unknown { addr: a, ty: 0x33, data: rng.bytes_upto(3) },
+        }
+    };
+    if shard == 0 {
+        // deterministic core: a write failure at EVERY write-call index of a 3-message session, for 3 chunk sizes
+        let msgs = vec![RefMsg::Request(3, O_START_RESET), RefMsg::Query(3), RefMsg::Goodbye(3), RefMsg::Hello(3)];
+        for size in [1usize, 4, usize::MAX] {
+            let total: usize = msgs.iter().map(|m| if size == usize::MAX { 1 } else { refs::wire(m).len().div_ceil(size) }).sum();
+            for j in 0..=total {
+                for act in [WriteAct::Fail(io::ErrorKind::Other), WriteAct::Zero, WriteAct::Interrupted] {
+                    let mut script = vec![WriteAct::Accept(size); j];
+                    script.push(act);
+                    check_session(&msgs, script, WriteAct::Accept(size), &mut rng, rep);
+                }
+            }
+        }
+        rep.count("session_core_done");
+    }
+    for _ in 0..n {
+        let k = 2 + rng.usize(4);
+        let msgs: Vec<RefMsg> = (0..k).map(|_| pool(&mut rng)).collect();
+        let size = *rng.pick(&[1usize, 2, 5, 16, usize::MAX]);
+        let mut script = vec![];
+        if rng.chance(2, 3) {
+            let at = rng.usize(12);
+            script = vec![WriteAct::Accept(size); at];
+            script.push(*rng.pick(&[WriteAct::Fail(io::ErrorKind::Other), WriteAct::Fail(io::ErrorKind::BrokenPipe), WriteAct::Zero, WriteAct::Interrupted]));
+            if rng.chance(1, 3) {
+                script.extend(vec![WriteAct::Accept(size); rng.usize(10)]);
+                script.push(WriteAct::Fail(io::ErrorKind::TimedOut));
+            }
+        }
+        check_session(&msgs, script, WriteAct::Accept(size), &mut rng, rep);
+    }
+}
+
 fn plain(msg: RefMsg, tape: Vec<u8>, label: &'static str) -> Exchange {
     Exchange {
         msg,
@@ -282,6 +446,10 @@ fn reply_tapes(rng: &mut Rng, own: u16) -> Vec<(Vec<u8>, &'static str)> {
     v.push((with_sentinel(refs::wire(&RefMsg::Unknown { addr: own, ty: 0x42, data: vec![9, 9] })), "reply_unknown_frame"));
     v.push((with_sentinel(refs::wire(&RefMsg::Data { offset: 16, data: rng.bytes(16) })), "reply_data_frame"));
     v.push((with_sentinel(refs::wire(&RefMsg::Report(own, S_CFG_RECV)).to_ascii_lowercase()), "reply_lower_case"));
+    for n in [253usize, 254, 255] {
+        v.push((with_sentinel(refs::wire(&RefMsg::Data { offset: rng.u16(), data: rng.bytes(n) })), "reply_maximum_length_frame"));
+        v.push((with_sentinel(refs::wire(&RefMsg::Unknown { addr: own, ty: 0x7E, data: rng.bytes(n) })), "reply_maximum_length_frame"));
+    }
     v.push((refs::enc(own, 4, &[0x0F]), "reply_without_crlf_at_eof"));
     v.push((with_sentinel(b":0100FF040F\r\n".to_vec()), "reply_malformed"));
     v.push((with_sentinel(b"garbage\r\n".to_vec()), "reply_malformed"));
@@ -401,12 +569,14 @@ fn cases(ctx: &Ctx, shard: usize, n_shards: usize, n_random: u64) -> Vec<Exchang
 
 pub fn run(ctx: &Ctx) -> Outcome {
     let n_random = ctx.size(20_000, 200_000);
+    let n_sessions = ctx.size(12_000, 1_000_000);
     let n_shards = 64usize;
     // data chunks and in-progress replies sleep 30 / 100 ms each: use more workers than cores
     let report = run_sharded_on(ctx.threads * 3, n_shards, |shard, rep| {
         for x in cases(ctx, shard, n_shards, n_random) {
             check(&x, rep);
         }
+        sessions(ctx, shard, n_sessions / n_shards as u64, rep);
     });
     let mut floors = vec![];
     for k in ["Hello", "QueryState", "RequestOperation"] {
@@ -422,6 +592,7 @@ pub fn run(ctx: &Ctx) -> Outcome {
     }
     floors.push(floor("write failures hit", report.get("write_failures_injected_and_hit") > 0, report.get("write_failures_injected_and_hit")));
     floors.push(floor("read failures hit", report.get("read_failures_injected_and_hit") > 0, report.get("read_failures_injected_and_hit")));
+    floors.push(floor("multi-message sessions on one bus (write failure at every call index + random)", report.get("session_core_done") == 1 && report.get("sessions") > 1000 && report.get("session_write_failures_hit") > 100, report.get("sessions")));
     floors.push(floor("fault-at-every-index case lists ran", report.get("cases/write_fault_each_call") > 50 && report.get("cases/read_fault_each_position") > 100 && report.get("cases/read_fragmentation") == 4096, report.get("cases/read_fault_each_position")));
     let sizes: Vec<J> = {
         let mut v: Vec<u64> = report.sets.get("read_request_sizes").map(|s| s.iter().copied().collect()).unwrap_or_default();
@@ -431,7 +602,7 @@ pub fn run(ctx: &Ctx) -> Outcome {
     Outcome {
         report,
         level: "fault_enumeration",
-        rule: "every message kind (addresses/offsets/counts across the range, all states and operations, data chunks of lengths 0,1,2,15,16,255, Unknown frames that look like a hello on the wire) through a real SerialSignBus on an instrumented port; every reply class (state/ack for own and foreign address, unknown and data frames, lower case, CRLF-less at EOF, malformed, bare LF, bad checksum, wrong length, empty line, empty tape); a failure at EVERY write-call index and EVERY read position, all 4096 fragmentations of the reply's first 12 bytes; plus seeded random combinations; a sentinel follows every reply; distinct by (message, tape, scripts) hash; all non-trivial".into(),
+        rule: "every message kind (addresses/offsets/counts across the range, all states and operations, data chunks of lengths 0,1,2,15,16,255, Unknown frames that look like a hello on the wire) through a real SerialSignBus on an instrumented port; every reply class (state/ack for own and foreign address, unknown and data frames, lower case, CRLF-less at EOF, malformed, bare LF, bad checksum, wrong length, empty line, empty tape); a failure at EVERY write-call index and EVERY read position, all 4096 fragmentations of the reply's first 12 bytes; plus seeded random combinations; plus SESSIONS of 2-5 messages through one bus instance with write faults at every call index (each message judged on its own slice of the event log); a sentinel follows every reply; distinct by (message, tape, scripts) hash; all non-trivial".into(),
         exhaustive: false,
         floors,
         assumptions: vec![
